@@ -44,9 +44,20 @@ class AstCase(pfbase.CfgCase):
         with warnings.catch_warnings():
             warnings.simplefilter('ignore')
             self.ref_text = pfbase.native_pformat(self.value, 10 ** 6, 10 ** 6, indent=self.indent)
-            self.ref_dump = pfbase.ast_dump(self.ref_text)
+            # width = ribbon = 10**6 is itself a configuration: text that does not
+            # parse there is reported as a violation (for every explored w, rw)
+            self.ref_error = None
+            try:
+                self.ref_dump = pfbase.ast_dump(self.ref_text)
+            except SyntaxError as e:
+                self.ref_dump = None
+                self.ref_error = str(e)
 
     def run(self, w, rw):
+        if self.ref_error is not None:
+            return self.fail('C03:output-not-an-expression',
+                             lambda: 'value=%s indent=%d width=ribbon_width=10**6\noutput:\n%s\n%s' % (
+                                 self.label, self.indent, self.ref_text, self.ref_error))
         with warnings.catch_warnings():
             warnings.simplefilter('ignore')
             try:
@@ -160,6 +171,12 @@ COMMENTED = [
     ['box', [['c', 'argument', L('1')]], [['tag', ['c', 'keyword', L("'x'")]]]],
     ['dict', [[['c', 'key note', L('1')], L('2')]]],
     ['tuple', [['c', 'sole', L('1')]]],
+    # only the last argument / element / value carries the comment
+    ['box', [L('1')], [['tag', ['c', 'keyword', L("'x'")]]]],
+    ['box', [['c', 'only argument', L('1')]], []],
+    ['list', [L('1'), ['c', 'last element', L('2')]]],
+    ['dict', [[L('1'), L('2')], [L('3'), ['c', 'last value', L('4')]]]],
+    ['list', [['box', [L('0')], [['tag', ['c', 'nested call, last', ['tuple', [L('1'), L('2')]]]]]], L('3')]],
 ]
 
 
@@ -200,6 +217,8 @@ def value_params(tier, seed):
     out.append(('call:kw-long-bytes', {'src': "[vf.props.c02.Box(0, tag=b'%s')]" % words}))
     out.append(('structtime', {'src': 'time.gmtime(0)'}))
     out.append(('function', {'src': '[sorted, vf.stdvals.fn, dict, collections.OrderedDict]'}))
+    out.append(('call:function-last', {'src': 'vf.props.c02.Box(1, tag=sorted)'}))
+    out.append(('call:class-sole', {'src': '[vf.props.c02.Box(dict), functools.partial(vf.stdvals.fn)]'}))
     return out
 
 
